@@ -12,10 +12,15 @@ class CanBind(object):
 
 class CanCustomize(object):
     def __propagate_name(self, kwargs):
-        for name_attr in ("_name", "_CustomizableThreadPoolExecutor__name"):
-            if hasattr(self, name_attr) and "name" not in kwargs:
-                kwargs["name"] = getattr(self, name_attr)
-                return
+        if "name" in kwargs:
+            return
+        # A bound callable has no name of its own; it inherits the name
+        # of the executor it is bound to.
+        for obj in (self, getattr(self, "_BoundCallable__executor", None)):
+            for name_attr in ("_name", "_CustomizableThreadPoolExecutor__name"):
+                if hasattr(obj, name_attr):
+                    kwargs["name"] = getattr(obj, name_attr)
+                    return
 
     def with_retry(self, *args, **kwargs):
         from .executors import Executors
